@@ -438,6 +438,96 @@ def w_order_stress(ctx: core.Ctx, arg):
     world.stop()
 
 
+def w_order_realsocket(ctx: core.Ctx, arg):
+    """writer threads against a provider with NOTHING replaced (real HTTP servers / clients on 127.0.0.1, default async or sync components,
+    consumers with the default deferred dispatcher); the order of arrival is taken at the consumer's notification dispatcher entry
+    (on_post, called by the consumer's HTTP server thread in the order the requests arrive), per consumer; at the end every consumer MDIB
+    (fed by the dispatcher's worker thread) must be at the provider's version: a report the consumer refused would show as a gap."""
+    from ..realworld import RealWorld
+    mdib_file = MDIB_FILES[arg['i'] % len(MDIB_FILES)]
+    async_mgr = arg['i'] % 2 == 0
+    try:
+        world = RealWorld(mdib_file, async_mgr=async_mgr, chunk_size=[0, 256][(arg['i'] // 2) % 2])
+    except Exception as ex:  # noqa: BLE001
+        ctx.not_decided(f'real-socket world could not be set up: {ex!r}')
+        return
+    arrivals = {}
+    lock = threading.Lock()
+    try:
+        mdib = world.mdib
+        consumers = []
+        for ci in range(2):
+            cons, cm = world.add_consumer(with_mdib=ci == 0)
+            consumers.append((cons, cm))
+            disp = cons._services_dispatcher  # noqa: SLF001
+            orig = disp.on_post
+
+            def on_post(request_data, _orig=orig, _ci=ci):
+                try:
+                    md = request_data.message_data
+                    name = md.q_name.localname if md.q_name is not None else ''
+                    if md.mdib_version_group is not None and (name.startswith('Episodic') or name in ('WaveformStream', 'DescriptionModificationReport')):
+                        with lock:
+                            arrivals.setdefault(_ci, []).append((md.mdib_version_group.mdib_version, name))
+                except Exception:  # noqa: BLE001
+                    pass
+                return _orig(request_data)
+            disp.on_post = on_post
+        old = sys.getswitchinterval()
+        sys.setswitchinterval(1e-5)
+        errors = []
+
+        def writer(wi):
+            r = ctx.rng('order-real-writer', arg['i'], wi)
+            memo = {}
+            weights = {k: v for k, v in mdibops.DEFAULT_WEIGHTS.items() if k in ('metric', 'alert', 'component', 'context', 'descr_update', 'operational', 'rt')}
+            for n in range(arg['ops']):
+                try:
+                    with mdib.mdib_lock:
+                        op = mdibops.gen_op(r, mdib, memo, weights)
+                    if op['op'] == 'context':
+                        op['new_handle'] = f'w{wi}_{op["new_handle"]}'
+                    mdibops.apply_op(mdib, op, memo)
+                except Exception as ex:  # noqa: BLE001
+                    errors.append(repr(ex))
+        threads = [threading.Thread(target=writer, args=(k,), daemon=True) for k in range(arg['writers'])]
+        for t in threads:
+            t.start()
+        for t in threads:
+            t.join(900)
+        sys.setswitchinterval(old)
+        if any(t.is_alive() for t in threads):
+            ctx.not_decided('real-socket order stress: writer threads did not finish')
+            return
+        for cons, cm in consumers:
+            if not world.barrier(cons):
+                ctx.not_decided('real-socket order stress: dispatcher barrier not reached')
+                return
+        for ci, seq in arrivals.items():
+            versions = [v for v, _ in seq]
+            ctx.count('order.real.notifications', len(versions))
+            inv = [(i, a, b) for i, (a, b) in enumerate(zip(versions, versions[1:])) if b < a]
+            if inv:
+                ctx.witness('order.decreasing_mdib_version', 'a subscriber received reports with decreasing MdibVersion (real sockets)',
+                            {'mdib_file': mdib_file, 'writers': arg['writers'], 'async_mgr': async_mgr, 'first': inv[:3],
+                             'around': seq[max(0, inv[0][0] - 3):inv[0][0] + 4]})
+        cm = consumers[0][1]
+        ctx.count('order.real.final_mirror_checked')
+        if cm.mdib_version != mdib.mdib_version:
+            ctx.witness('order.real.consumer_not_at_provider_version', 'after all reports were delivered in order the consumer MDIB is not at the provider MdibVersion',
+                        {'consumer': cm.mdib_version, 'provider': mdib.mdib_version, 'async_mgr': async_mgr, 'mdib_file': mdib_file})
+        else:
+            from ..history import snap, snap_equal
+            diffs = snap_equal(snap(mdib), snap(cm))
+            if diffs:
+                ctx.witness('order.real.consumer_differs', 'after concurrent writers the consumer MDIB differs from the provider MDIB at the same version',
+                            {'diff': diffs[:4], 'async_mgr': async_mgr, 'mdib_file': mdib_file})
+        ctx.case(('order-real', arg['i'], arg['writers'], async_mgr))
+        ctx.count('order.real.writer_errors', len(errors))
+    finally:
+        world.stop()
+
+
 def w_order_explore(ctx: core.Ctx, arg):
     """the writer is observed: at every point where it holds neither the transaction lock nor the MDIB lock a foreign transaction runs."""
     rng = ctx.rng('order-explore', arg['i'])
@@ -624,7 +714,10 @@ def run(ctx: core.Ctx):
     jobs += [['w_order_explore', {'i': k, 'k': 1 + k % 2}] for k in range(2 if q else 8)]
     jobs += [['w_periodic_retrievability', {'i': k, 'rounds': 15 if q else 150}] for k in range(4 if q else 8)]
     jobs += [['w_poison', {'i': k, 'n': 4 if q else 40}] for k in range(2 if q else 8)]
+    jobs += [['w_order_realsocket', {'i': k, 'writers': 2 + k % 3, 'ops': 40 if q else 400}] for k in range(4 if q else 8)]
     core.fanout(ctx, MODULE, 'dispatch', jobs, timeout=3000)
+    ctx.floor('order.real.notifications', 200)
+    ctx.floor('order.real.final_mirror_checked', 4)
     ctx.floor('periodic.loop.states_checked', 100)
     ctx.floor('schema.poison.worlds', 8)
     ctx.floor('periodic.loop.injected_transactions', 20)
